@@ -306,19 +306,46 @@ func checkCBCIV(r *Report, fc *FuncCtx, b *ssa.BasicBlock, in ssa.Instruction, c
 	blk, iv := c.Args[0], c.Args[1]
 	want := fc.AP(blk) + ".BlockSize()"
 	cons := fmt.Sprintf("%s: %s iv=%s", p.FnName(fc.Fn), calleeName(c), fc.AP(iv))
-	switch x := iv.(type) {
-	case *ssa.Slice:
-		if x.Low == nil && x.High != nil && fc.AP(x.High) == want {
-			r.OK(rule, cons, p.InstrPos(in), "iv is a prefix of length "+want)
-			return
-		}
-	case *ssa.MakeSlice:
-		if fc.AP(x.Len) == want {
-			r.OK(rule, cons, p.InstrPos(in), "iv = make([]byte, "+want+")")
-			return
-		}
+	if sliceLenAP(fc, iv) == want {
+		r.OK(rule, cons, p.InstrPos(in), "iv has length "+want+" (prefix of that length, or made with it)")
+		return
 	}
 	r.Bad(rule, cons, p.InstrPos(in), "IV length is not the block size of the cipher it is used with (NewCBC* panics with 'IV length must equal block size')")
+}
+
+// sliceLenAP: the access path of the length of a byte slice that is a prefix x[:n] or make([]byte, n) (directly, or
+// as named through a side-effect-free helper that cuts it); "" otherwise.
+func sliceLenAP(fc *FuncCtx, v ssa.Value) string {
+	switch x := v.(type) {
+	case *ssa.Slice:
+		if x.Low == nil && x.High != nil {
+			return fc.AP(x.High)
+		}
+		return ""
+	case *ssa.MakeSlice:
+		return fc.AP(x.Len)
+	}
+	ap := fc.AP(v)
+	if !strings.HasSuffix(ap, "]") {
+		return ""
+	}
+	depth := 0
+	for i := len(ap) - 1; i >= 0; i-- {
+		switch ap[i] {
+		case ']':
+			depth++
+		case '[':
+			depth--
+			if depth == 0 {
+				inner := ap[i+1 : len(ap)-1]
+				if strings.HasPrefix(inner, ":") {
+					return inner[1:]
+				}
+				return ""
+			}
+		}
+	}
+	return ""
 }
 
 func checkAEADNonce(r *Report, fc *FuncCtx, b *ssa.BasicBlock, in ssa.Instruction, c *ssa.CallCommon, rule string) {
@@ -329,17 +356,9 @@ func checkAEADNonce(r *Report, fc *FuncCtx, b *ssa.BasicBlock, in ssa.Instructio
 	nonce := c.Args[1]
 	want := fc.AP(c.Value) + ".NonceSize()"
 	cons := fmt.Sprintf("%s: %s nonce=%s", p.FnName(fc.Fn), calleeName(c), fc.AP(nonce))
-	switch x := nonce.(type) {
-	case *ssa.Slice:
-		if x.Low == nil && x.High != nil && fc.AP(x.High) == want {
-			r.OK(rule, cons, p.InstrPos(in), "nonce is a prefix of length "+want)
-			return
-		}
-	case *ssa.MakeSlice:
-		if fc.AP(x.Len) == want {
-			r.OK(rule, cons, p.InstrPos(in), "nonce = make([]byte, "+want+")")
-			return
-		}
+	if sliceLenAP(fc, nonce) == want {
+		r.OK(rule, cons, p.InstrPos(in), "nonce has length "+want+" (prefix of that length, or made with it)")
+		return
 	}
 	r.Bad(rule, cons, p.InstrPos(in), "nonce length is not established to equal NonceSize() (Open/Seal panic with 'incorrect nonce length')")
 }
@@ -1072,7 +1091,26 @@ func checkCertMatch(r *Report, sc *Scope, rule string) {
 }
 
 // atomLookupsCertificate: the isnil atom is about a FindElement call whose constant path ends in X509Certificate.
-func atomLookupsCertificate(ai *AtomInfo) bool {
+func atomLookupsCertificate(ai *AtomInfo) bool { return atomLooksUp(ai, "X509Certificate") }
+
+// atomLooksUp: the atom is about a call with a constant string argument that ends in suffix (an etree path).
+func atomLooksUp(ai *AtomInfo, suffix string) bool {
+	if ai == nil {
+		return false
+	}
+	for _, v := range ai.Vals {
+		if c, ok := v.(*ssa.Call); ok {
+			for _, a := range c.Call.Args {
+				if k, ok := a.(*ssa.Const); ok && k.Value != nil && k.Value.Kind() == constant.String && strings.HasSuffix(constant.StringVal(k.Value), suffix) {
+					return true
+				}
+			}
+		}
+	}
+	return false
+}
+
+func atomLookupsCertificateOld(ai *AtomInfo) bool {
 	for _, v := range ai.Vals {
 		if c, ok := v.(*ssa.Call); ok {
 			for _, a := range c.Call.Args {
